@@ -220,6 +220,25 @@ func surnameStartsWith(individual *gedcom.IndividualNode, letter rune) bool {
 	return getIndexLetter(individual) == letter
 }
 
+// familyHasLivingSpouse is true if the husband or the wife of the family is
+// living. The events of such a family (the marriage) tell something about a
+// living individual.
+func familyHasLivingSpouse(family *gedcom.FamilyNode) bool {
+	return family.Husband().Individual().IsLiving() ||
+		family.Wife().Individual().IsLiving()
+}
+
+// familyForNode returns the family that node is nested in, or nil.
+func familyForNode(doc *gedcom.Document, node gedcom.Node) *gedcom.FamilyNode {
+	for _, family := range doc.Families() {
+		if gedcom.Node(family) == node || gedcom.HasNestedNode(family, node) {
+			return family
+		}
+	}
+
+	return nil
+}
+
 func individualForNode(doc *gedcom.Document, node gedcom.Node) *gedcom.IndividualNode {
 	for _, individual := range doc.Individuals() {
 		// The node can be the individual itself (a PLAC directly below the
